@@ -560,6 +560,20 @@ impl Check for C10 {
                 out.push(Unit { level: None, opts: Some(Opts::new(d)), len: tier.pick(3, 4), family: "repeated-group-with-positional".into(), alpha: toks(&["x", "--name", "--name=y", "-f", "-v", "c"]), custom_help: false, custom_sub_only: false });
             }
         }
+        // switches written with an attached value (`--verbose=1`, `-v=1`, `--quiet=`): the value is
+        // left over after an otherwise successful parse; help and version still win
+        {
+            let level = |inner: bool| {
+                let _ = inner;
+                Opts::new(P::Seq(vec![P::Switch(Names::both('v', "verbose")), P::Switch(Names::both('q', "quiet")), P::arg(Names::short('n'), Ty::Os).opt()]))
+            };
+            let alpha = toks(&["--verbose=1", "-v=1", "--quiet=", "-q", "-n", "x"]);
+            out.push(Unit { level: None, opts: Some(level(false)), len: tier.pick(3, 4), family: "switch-with-a-value".into(), alpha: alpha.clone(), custom_help: false, custom_sub_only: false });
+            let mut a2 = alpha.clone();
+            a2.push(Tok::s("run"));
+            let o = Opts::new(P::Seq(vec![P::Switch(Names::short('o')), P::cmd("run", level(true))]));
+            out.push(Unit { level: None, opts: Some(o), len: tier.pick(3, 4), family: "switch-with-a-value".into(), alpha: a2, custom_help: false, custom_sub_only: false });
+        }
         let mut out: Vec<Value> = out.into_iter().map(|u| serde_json::to_value(u).unwrap()).collect();
         for k in 0..odd_command_cases().len() {
             out.push(json!({"odd": k}));
@@ -587,7 +601,7 @@ impl Check for C10 {
         run_u(&u, unit, Some((&base, pos, &token)), ctx);
     }
     fn rule(&self) -> String {
-        "definitions = conventional levels (<=2 named items x all tails incl. command tails of depth 3, version configured nowhere / at the top / everywhere), command trees of C08 (every fifth with custom - non-ASCII - help names on all levels, every seventh on the sub-commands only), the general shape family and adjacent group shapes; base vectors = every vector of the token tree (valid, invalid, incomplete); the help token (--help, -h, custom names) and the version token (--version, -V) are inserted as an item of their own at EVERY position left of the first `--`; oracle: outcome is stdout and equals, byte for byte, the help/version text of the level owning that position (reference level finder: deepest command whose name was the first unclaimed item), version is an ordinary unknown flag where not configured; on levels with a version and no commands a version item added at any position next to the help item still gives the help; for general shapes the level is judged while no command name precedes the position; for adjacent commands a position directly behind the command name and its own items belongs to the command; plus commands in unusual places (inside an optional member of a group that is one branch of an alternative; under fallback beside a valued alternative): help after the name, with malformed items around it, is the command's; evaluation = one run; non-trivial = judged insertion; plus repeated groups and choices holding a positional beside a named item (some / many / collect / last, top level and inside a command)".into()
+        "definitions = conventional levels (<=2 named items x all tails incl. command tails of depth 3, version configured nowhere / at the top / everywhere), command trees of C08 (every fifth with custom - non-ASCII - help names on all levels, every seventh on the sub-commands only), the general shape family and adjacent group shapes; base vectors = every vector of the token tree (valid, invalid, incomplete); the help token (--help, -h, custom names) and the version token (--version, -V) are inserted as an item of their own at EVERY position left of the first `--`; oracle: outcome is stdout and equals, byte for byte, the help/version text of the level owning that position (reference level finder: deepest command whose name was the first unclaimed item), version is an ordinary unknown flag where not configured; on levels with a version and no commands a version item added at any position next to the help item still gives the help; for general shapes the level is judged while no command name precedes the position; for adjacent commands a position directly behind the command name and its own items belongs to the command; plus commands in unusual places (inside an optional member of a group that is one branch of an alternative; under fallback beside a valued alternative): help after the name, with malformed items around it, is the command's; evaluation = one run; non-trivial = judged insertion; plus repeated groups and choices holding a positional beside a named item (some / many / collect / last, top level and inside a command); plus switches written with an attached value (--verbose=1, -v=1, --quiet=), top level and inside a command".into()
     }
     fn bounds(&self, tier: Tier) -> Value {
         json!({"base_vector_length": tier.pick("3 (1 item), 2 (2 items, trees, shapes), 3 (groups)", "4 / 3 / 4"), "insert_positions": "all, left of `--`"})
